@@ -24,7 +24,7 @@ type Runner struct {
 	Deleted map[string]bool // bucket/name ever deleted or never created but probed
 	Buckets map[string]bool // buckets that must exist
 	// counters for non-triviality rules
-	Writes, Patches, Failed, Deletes, Recreates, AdjacentWrites, ResumableMulti, Restarts int
+	Writes, Patches, Failed, Deletes, Recreates, AdjacentWrites, ResumableMulti, Restarts, Probes int
 	lastWrite                                                                             string
 	formRot                                                                               int
 	SkipList                                                                              bool // do not compare listing order (checks that own listing semantics do it themselves)
@@ -86,6 +86,8 @@ func (r *Runner) Do(op *Op) string {
 		}
 	case "dropsidecar":
 		mis = r.dropSidecar(op)
+	case "probe":
+		mis = r.probe(op)
 	default:
 		return "runner: unknown op " + op.K
 	}
@@ -650,6 +652,19 @@ func (r *Runner) patch(op *Op) string {
 		body["metadata"] = op.MetaSet
 	}
 	for k, v := range op.RO {
+		if v == "@cond" {
+			// echo the value of the request's own precondition in the body (a client sending back the resource it
+			// read): the condition must still be judged against the stored object
+			v = "5"
+			qk := map[string][]string{"generation": {"ifGenerationMatch", "ifGenerationNotMatch"}, "metageneration": {"ifMetagenerationMatch", "ifMetagenerationNotMatch"}}[k]
+			for _, name := range qk {
+				if x := ce.Query.Get(name); x != "" {
+					v = x
+					r.label("patch-body-echoes-condition-value")
+					break
+				}
+			}
+		}
 		body[k] = v
 	}
 	raw, _ := json.Marshal(body)
@@ -742,6 +757,34 @@ func (r *Runner) delete(op *Op) string {
 	delete(r.M.Buckets[b], n)
 	r.Deletes++
 	r.lastWrite = ""
+	return ""
+}
+
+// probe sends a request on a name that is not an object but a '/'-prefix of
+// object names (a directory of the file store). What such a request answers is
+// not stated by any property, so only a crash is reported here; the point is
+// the comparison of every OTHER object with the model that follows the step.
+func (r *Runner) probe(op *Op) string {
+	if r.M.Get(op.Bucket, op.Name) != nil {
+		return "" // the name is an object in this history: not a probe
+	}
+	req := &Req{Method: "GET", Path: ObjPath(op.Bucket, op.Name)}
+	switch op.Form {
+	case "delete":
+		req.Method = "DELETE"
+	case "media":
+		req.Path += "?alt=media"
+	case "patch":
+		req.Method = "PATCH"
+		req.Body = BS(`{"contentType":"x/probe"}`)
+		req.Headers = map[string]string{"Content-Type": "application/json"}
+	}
+	resp := r.E.Do(req)
+	if resp.Panic != "" {
+		return panicMsg(resp.Panic)
+	}
+	r.label("probe-prefix-name:" + op.Form)
+	r.Probes++
 	return ""
 }
 
